@@ -98,7 +98,7 @@ def run_once(L, wl, k, sticky, short, tmo=30):
 def site_of(stderr):
     import re
     m = re.search(r"ERROR: \w+: ([\w-]+)", stderr or "")
-    f = re.findall(r"#\d+ \S+ in (\w+) /repo/\S+", stderr or "")
+    f = re.findall(r"#\d+ \S+ in (\w+) \S*/(?:hdf|mfhdf)/src/\S+", stderr or "")   # wherever the tree was built from
     return (m.group(1) if m else "signal"), (f[0] if f else "?")
 
 
